@@ -1062,3 +1062,131 @@ theorem foldl_stepAsync_eq (locking : Bool) (D : Dev σ) (progs : List Prog) (sc
     exact ⟨l1 ++ l2, by simp only [List.foldl_cons, List.foldl_append]; rw [h2, h1]⟩
 
 end Scrapli.Lock
+
+namespace Scrapli.Lock
+variable {σ : Type}
+
+/-! ### histories with "cancel a caller that waits for the lock" -/
+
+/-- what `cancelWaiting` can be: nothing, or the waiting caller skips its operation -/
+theorem cancel_cases (releases : Bool) (progs : List Prog) (s : St σ) (i : Nat) :
+    cancelWaiting releases progs s i = s ∨
+    ∃ c, s.callers[i]? = some c ∧ c.cur = none ∧
+      cancelWaiting releases progs s i =
+        { s with callers := s.callers.set i { pc := c.pc + 1, cur := none, reads := [] },
+                 lock := if releases then none else s.lock } := by
+  unfold cancelWaiting
+  cases hc : s.callers[i]? with
+  | none => left; rfl
+  | some c =>
+    cases hcur : c.cur with
+    | some l => left; rfl
+    | none =>
+      cases hop : opAt progs i c.pc with
+      | none => left; rfl
+      | some op => right; exact ⟨c, rfl, hcur, rfl⟩
+
+/-- a cancelled waiter (that does not touch the lock) preserves the invariant -/
+theorem inv_cancel (progs : List Prog) {s : St σ} (h : Inv s) (i : Nat) : Inv (cancelWaiting false progs s i) := by
+  rcases cancel_cases false progs s i with he | ⟨c, hc, hcur, he⟩
+  · rw [he]; exact h
+  · rw [he]
+    refine ⟨?_, ?_, ?_, ?_, ?_, ?_⟩
+    · intro j cj hj hs
+      simp only [lookup_set hc] at hj
+      split at hj
+      · cases hj; simp at hs
+      · simpa using h.held j cj hj hs
+    · intro j hj
+      have hj' : s.lock = some j := by simpa using hj
+      obtain ⟨cj, hcj, hs⟩ := h.holder j hj'
+      by_cases hji : j = i
+      · subst hji; rw [hc] at hcj; cases hcj; rw [hcur] at hs; simp at hs
+      · exact ⟨cj, by simp [lookup_set hc, hji, hcj], hs⟩
+    · intro j cj hj
+      simp only [lookup_set hc] at hj
+      split at hj
+      · cases hj; simp
+      · exact h.curne j cj hj
+    · intro e he'
+      obtain ⟨c0, hc0, hlt⟩ := h.fresh e he'
+      simp only [lookup_set hc]
+      by_cases hei : e.caller = i
+      · rw [hei] at hc0; rw [hc] at hc0; cases hc0
+        refine ⟨{ pc := c.pc + 1, cur := none, reads := [] }, by simp [hei], ?_⟩
+        rcases hlt with hlt | ⟨_, hs⟩
+        · left; simp; omega
+        · rw [hcur] at hs; simp at hs
+      · exact ⟨c0, by simp [hei, hc0], hlt⟩
+    · intro j cj hj hs
+      simp only [lookup_set hc] at hj
+      split at hj
+      · cases hj; simp at hs
+      · exact h.suffix j cj hj hs
+    · exact h.nogap
+
+theorem inv_stepE (D : Dev σ) (progs : List Prog) {s : St σ} (h : Inv s) (ev : SEv) :
+    Inv (stepE false true D progs s ev) := by
+  cases ev with
+  | run i => exact inv_step D progs h i
+  | cancel i => exact inv_cancel progs h i
+
+theorem inv_runE (D : Dev σ) (progs : List Prog) (evs : List SEv) : Inv (runE false true D progs evs) := by
+  unfold runE
+  generalize init D progs = s0, inv_init D progs = h0
+  induction evs generalizing s0 with
+  | nil => exact h0
+  | cons ev rest ih => exact ih _ (inv_stepE D progs h0 ev)
+
+/-- … and the serial-equivalence invariant: the cancelled operation never ran and is in no log -/
+theorem sinv_cancel (D : Dev σ) (progs : List Prog) {s : St σ} (h : Inv s) (hs : SInv D progs s) (i : Nat) :
+    SInv D progs (cancelWaiting false progs s i) := by
+  rcases cancel_cases false progs s i with he | ⟨c, hc, hcur, he⟩
+  · rw [he]; exact hs
+  · rw [he]
+    unfold SInv at hs ⊢
+    cases hl : s.lock with
+    | none =>
+      simp only [orderOf, complete, hl] at hs ⊢
+      simpa using hs
+    | some j =>
+      obtain ⟨cj, hcj, hsj⟩ := h.holder j hl
+      have hji : j ≠ i := by
+        intro e; subst e; rw [hc] at hcj; cases hcj; rw [hcur] at hsj; simp at hsj
+      simp only [orderOf, complete, hl, hcj] at hs
+      simp only [orderOf, complete, hl, Bool.false_eq_true, if_false, lookup_set hc, hji, hcj]
+      exact hs
+
+theorem sinv_runE (D : Dev σ) (progs : List Prog) (evs : List SEv) : SInv D progs (runE false true D progs evs) := by
+  unfold runE
+  generalize init D progs = s0, inv_init D progs = h0, sinv_init D progs = hs0
+  induction evs generalizing s0 with
+  | nil => exact hs0
+  | cons ev rest ih =>
+    cases ev with
+    | run i => exact ih _ (inv_step D progs h0 i) (sinv_step D progs h0 hs0 i)
+    | cancel i => exact ih _ (inv_cancel progs h0 i) (sinv_cancel D progs h0 hs0 i)
+
+theorem foldl_stepEAsync_eq (releases locking : Bool) (D : Dev σ) (progs : List Prog) (evs : List SEv) : ∀ (s : St σ),
+    ∃ l : List SEv, evs.foldl (stepEAsync releases locking D progs) s = l.foldl (stepE releases locking D progs) s := by
+  induction evs with
+  | nil => intro s; exact ⟨[], rfl⟩
+  | cons ev rest ih =>
+    intro s
+    obtain ⟨l2, h2⟩ := ih (stepEAsync releases locking D progs s ev)
+    cases ev with
+    | cancel i => exact ⟨.cancel i :: l2, by simp only [List.foldl_cons]; rw [h2]; rfl⟩
+    | run i =>
+      obtain ⟨l1, h1⟩ := stepAsync_eq locking D progs s i
+      refine ⟨l1.map .run ++ l2, ?_⟩
+      simp only [List.foldl_cons, List.foldl_append]
+      rw [h2]
+      have : (l1.map SEv.run).foldl (stepE releases locking D progs) s = l1.foldl (step locking D progs) s := by
+        clear h1 h2
+        induction l1 generalizing s with
+        | nil => rfl
+        | cons a l ih' => simp only [List.map_cons, List.foldl_cons]; exact ih' _
+      rw [this, ← h1]
+      rfl
+
+end Scrapli.Lock
